@@ -6,6 +6,7 @@
 (b) the real Calculator on re-presented copies of synthetic data sets (and, thorough, of the shipped examples).
 The differential run is the oracle of the search stage.
 """
+import gc
 import contextlib
 import copy
 import logging
@@ -167,6 +168,8 @@ def observe_calc(settings_path):
         out["grid.v"] = numpy.array(c.v_array)
         out["grid.t"] = numpy.array(c.t_array)
         out["grid.p"] = numpy.array(pb.p_array)
+    del c, pb
+    gc.collect()       # Calculator objects are reference cycles holding GBs for the shipped examples
     return out
 
 
